@@ -7,7 +7,7 @@ def check(run, args):
     thorough = run.tier == "thorough"
     run.build_harness()
     d = run.tla_dir()
-    run.tlc("JenForms.tla", "Forms.cfg", overrides=dict(Names='{"block", "call", "values", "params"}') if thorough else None, workers=4, timeout=3000)
+    run.tlc("JenForms.tla", "Forms.cfg", overrides=dict(Names='{"block", "call", "values", "params", "do"}') if thorough else None, workers=4, timeout=3000)
     tf = os.path.join(run.scratch, "forms.ndjson")
     shutil.move(os.path.join(d, "forms.ndjson"), tf)
     run.tlc("ExportTable.tla", "ExportTable.cfg", workers=1, count=False)
@@ -18,7 +18,7 @@ def check(run, args):
     st = json.load(open(stats))
     events = [json.loads(l) for l in open(trace)]
     recs = run.validate_trace("Trace_Forms.tla", "Trace_Forms.cfg", trace_path=trace,
-                              overrides=dict(Names='{"block", "call", "values", "params"}') if thorough else None)
+                              overrides=dict(Names='{"block", "call", "values", "params", "do"}') if thorough else None)
     os.remove(os.path.join(d, "trace%d.ndjson" % (len(run.tlc_runs) - 1)))
     mine = [r for r in recs if r["prop"] == run.prop]
     firsts = {}
